@@ -16,7 +16,7 @@ from .gamma import Node, canon, ev, flatten_exc, follow_trail, foreign_leaves, h
 from .par import pmap
 from .tlc import SPEC_DIR, MachineryError, make_cfg, run_tlc
 
-INVS = ["RulesTotal", "StrictNarrows", "StrictOrigins", "ErrsOnlyWhenRejected", "EmitCase"]
+INVS = ["RulesTotal", "StrictNarrows", "StrictOrigins", "ErrsOnlyWhenRejected", "UnexpConsistent", "EmitCase"]
 
 
 def q(xs) -> str:
@@ -141,6 +141,7 @@ def judge_case(T: dict, case: dict, loaders_by_k: dict, reps: int, bad: dict, ou
     tstr = type_str(T)
     dstr = data_str(d)
     union_inside = has_union(T)
+    user_inside = gamma.has_user(T)
     for k in range(reps):
         if k > 0 and not _has_multi_rep(d):
             break
@@ -191,7 +192,7 @@ def judge_case(T: dict, case: dict, loaders_by_k: dict, reps: int, bad: dict, ou
                 tag, val, datum = obs[(s, dt.name)]
                 expected_vals = expd.get((s, dt.name))
                 # ---- C04 ---------------------------------------------------------------
-                if tag == "err":
+                if tag == "err" and not model.get("unexp") and not (model["undef"] and user_inside):   # (user code may raise what it likes)
                     off = is_load_error_tree(val)
                     if off:
                         leaves = foreign_leaves(val)
@@ -199,7 +200,10 @@ def judge_case(T: dict, case: dict, loaders_by_k: dict, reps: int, bad: dict, ou
                         add("C04", "foreign_exception", f"{_err_desc(val)} (offending leaf class {off})", dt.name,
                             {"exc": excname})
                 # ---- C02 ---------------------------------------------------------------
-                if not model["undef"]:
+                if model.get("unexp") and not model["undef"]:
+                    if tag == "ok":
+                        add("C02", "accepts_although_user_code_raises", f"{dt.name}: returned {val!r}; the user supplied loader of a case in front raises for this datum", dt.name)
+                elif not model["undef"]:
                     if model["acc"]:
                         if tag == "err":
                             add("C02", "rejects_documented", f"{dt.name}: raised {_err_desc(val)}; documented result(s) {model['acc']}", dt.name)
@@ -211,7 +215,7 @@ def judge_case(T: dict, case: dict, loaders_by_k: dict, reps: int, bad: dict, ou
                     elif tag == "ok":
                         add("C02", "accepts_undocumented", f"{dt.name}: returned {val!r}; the documented rule rejects", dt.name)
                 # ---- C05 ---------------------------------------------------------------
-                if not model["undef"] and not model["acc"] and tag == "err" and isinstance(val, LoadError) \
+                if not model["undef"] and not model["acc"] and not model.get("unexp") and tag == "err" and isinstance(val, LoadError) \
                         and not is_load_error_tree(val):
                     leaves = flatten_exc(val, (), stop_union=True)
                     want = model_paths(model["errs"])
@@ -268,7 +272,7 @@ def judge_case(T: dict, case: dict, loaders_by_k: dict, reps: int, bad: dict, ou
                 elif not union_inside and not _contains_opaque(d) and canon(st[1]) != canon(lx[1]):
                     what, detail = "strict_and_lax_values_differ", f"{dt.name}: strict {st[1]!r} lax {lx[1]!r}"
                 sm = case["S"]
-                if what is None and not sm["undef"] and not sm["acc"]:
+                if what is None and not sm["undef"] and not sm["acc"] and not sm.get("unexp"):
                     what, detail = "strict_accepts_outside_allowed_origins", f"{dt.name}: strict returned {st[1]!r} for a datum outside the documented strict origins"
                 if what:
                     out["badkeys"]["C07"].add((tstr, dstr, "S"))
@@ -334,11 +338,11 @@ def _worker(items) -> dict:
                 hk = hint(T, variant, k)
                 if (len(tjson) + variant + k) % 2:
                     # the six retorts are derived from one base through replace(); the lax loaders are requested first
-                    base = Retort(strict_coercion=False)
+                    base = Retort(strict_coercion=False, recipe=gamma.user_recipe())
                     rs = {(s, dt.name): base.replace(strict_coercion=s, debug_trail=dt) for s in (False, True) for dt in modes()}
                     base.get_loader(hk)
                 else:
-                    rs = {(s, dt.name): Retort(strict_coercion=s, debug_trail=dt) for s in (False, True) for dt in modes()}
+                    rs = {(s, dt.name): Retort(strict_coercion=s, debug_trail=dt, recipe=gamma.user_recipe()) for s in (False, True) for dt in modes()}
                 loaders_by_k[k] = {key: r.get_loader(hk) for key, r in rs.items()}
         except Exception as e:  # noqa: BLE001
             out["creation_failed"].append({"type": type_str(T), "exc": repr(e)[:300]})
